@@ -1,6 +1,6 @@
 SPECIFICATION Spec
 CONSTANTS
-  KINDS = {"netlist", "die", "alloc", "stog", "encode", "legal", "strop", "undef"}
+  KINDS = {"netlist", "die", "alloc", "stog", "encode", "legal", "strop", "undef", "pads"}
   PROBES = {"netlist", "die", "alloc", "stog", "encode", "legal", "strop", "sliver"}
   SCALES = {0, 2, 4}
   MID = 2
